@@ -320,55 +320,30 @@ func checkReadLoopEnqueue(c *Ctx, r *Report) {
 	rd := reads[0].(*ssa.Call)
 	en := enqs[0].(*ssa.Call)
 	data, errv := resultOf(rd, 0), resultOf(rd, 1)
-	// provenance of the enqueued value
-	isCRRemoval := func(v ssa.Value) bool {
-		call, ok := v.(*ssa.Call)
-		if !ok {
-			return false
-		}
-		o := CalleeObj(call)
-		if o == nil || o.Pkg() == nil || o.Pkg().Path() != "bytes" || o.Name() != "ReplaceAll" {
-			return false
-		}
-		if call.Call.Args[0] != data {
-			return false
-		}
-		from, ok1 := constString(stripConv(call.Call.Args[1]))
-		to, ok2 := constString(stripConv(call.Call.Args[2]))
-		return ok1 && ok2 && from == "\r" && to == ""
-	}
+	// provenance of the enqueued value (the transformation may live in a helper that is handed the read's bytes)
 	arg := en.Call.Args[1]
-	okProv := false
-	msg := "the value enqueued is not the bytes of the transport read with CR removed (and ANSI stripped when an ESC is present)"
-	if phi, ok := arg.(*ssa.Phi); ok && len(phi.Edges) == 2 {
-		var plain, stripped ssa.Value
-		for _, e := range phi.Edges {
-			if isCRRemoval(e) {
-				plain = e
-			} else if call, ok := e.(*ssa.Call); ok && call.Call.StaticCallee() == strip {
-				stripped = e
+	okProv, msg := enqueueProvenance(arg, data, strip)
+	if hc, ok := arg.(*ssa.Call); ok && !okProv {
+		if sc := hc.Call.StaticCallee(); sc != nil && sc.Pkg != nil && isLibPkgPath(sc.Pkg.Pkg.Path()) && sc.Blocks != nil && sc != strip {
+			for i, a := range hc.Call.Args {
+				if a != data || i >= len(sc.Params) {
+					continue
+				}
+				all := true
+				n := 0
+				allInstrs(sc, func(in ssa.Instruction) {
+					if ret, isRet := in.(*ssa.Return); isRet && len(ret.Results) == 1 {
+						n++
+						if ok2, _ := enqueueProvenance(ret.Results[0], sc.Params[i], strip); !ok2 {
+							all = false
+						}
+					}
+				})
+				if n > 0 && all {
+					okProv = true
+				}
 			}
 		}
-		if plain != nil && stripped != nil && stripped.(*ssa.Call).Call.Args[0] == plain {
-			// the strip edge is guarded by bytes.Contains(plain, ESC)
-			sc := stripped.(*ssa.Call)
-			if guardedBy(sc, func(v ssa.Value, t bool) bool {
-				call, ok := v.(*ssa.Call)
-				if !ok || !t {
-					return false
-				}
-				o := CalleeObj(call)
-				if o == nil || o.Name() != "Contains" {
-					return false
-				}
-				s, isS := constString(stripConv(call.Call.Args[1]))
-				return isS && s == "\x1b" && call.Call.Args[0] == plain
-			}) {
-				okProv = true
-			}
-		}
-	} else if isCRRemoval(arg) {
-		msg = "ANSI escape sequences are no longer stripped from chunks that contain an ESC"
 	}
 	r.Check(okProv, rule, "enqueued value provenance", c.Pos(en.Pos()), "ReplaceAll(read bytes, CR, \"\") then StripANSI iff ESC present", msg)
 	// exactly one Enqueue between a successful non-empty read and the next read
@@ -780,4 +755,55 @@ func loopHeaderOf(b *ssa.BasicBlock) *ssa.BasicBlock {
 		return b
 	}
 	return best
+}
+
+// enqueueProvenance: v is `data` with every CR removed and, exactly when an ESC is present, the escape sequences stripped.
+func enqueueProvenance(v, data ssa.Value, strip *ssa.Function) (bool, string) {
+	isCRRemoval := func(x ssa.Value) bool {
+		call, ok := x.(*ssa.Call)
+		if !ok {
+			return false
+		}
+		o := CalleeObj(call)
+		if o == nil || o.Pkg() == nil || o.Pkg().Path() != "bytes" || o.Name() != "ReplaceAll" {
+			return false
+		}
+		if call.Call.Args[0] != data {
+			return false
+		}
+		from, ok1 := constString(stripConv(call.Call.Args[1]))
+		to, ok2 := constString(stripConv(call.Call.Args[2]))
+		return ok1 && ok2 && from == "\r" && to == ""
+	}
+	msg := "the value enqueued is not the bytes of the transport read with CR removed (and ANSI stripped when an ESC is present)"
+	if phi, ok := v.(*ssa.Phi); ok && len(phi.Edges) == 2 {
+		var plain, stripped ssa.Value
+		for _, e := range phi.Edges {
+			if isCRRemoval(e) {
+				plain = e
+			} else if call, ok := e.(*ssa.Call); ok && call.Call.StaticCallee() == strip {
+				stripped = e
+			}
+		}
+		if plain != nil && stripped != nil && stripped.(*ssa.Call).Call.Args[0] == plain {
+			sc := stripped.(*ssa.Call)
+			if guardedBy(sc, func(cv ssa.Value, t bool) bool {
+				call, ok := cv.(*ssa.Call)
+				if !ok || !t {
+					return false
+				}
+				o := CalleeObj(call)
+				if o == nil || o.Name() != "Contains" {
+					return false
+				}
+				s, isS := constString(stripConv(call.Call.Args[1]))
+				return isS && s == "\x1b" && call.Call.Args[0] == plain
+			}) {
+				return true, ""
+			}
+		}
+	} else if isCRRemoval(v) {
+		msg = "ANSI escape sequences are no longer stripped from chunks that contain an ESC"
+	}
+	return false, msg
 }
